@@ -96,6 +96,12 @@ struct NmtRun : NodeEnv {
             if (m == M_OP) { if (w.raw(0, 0x2100, 1) != val) fail("gating/rpdo-not-applied", "RPDO did not write its object in OPERATIONAL"); expectClaimed(fx, "RPDO"); int pr = 0; for (auto &e : fx.evs) if (e.kind == EV_PDORECEIVE) pr++; if (pr != 1) fail("rpdo/receive-callback", "COPdoReceive called " + std::to_string(pr) + " times"); if (variant == 1) { /* at most one service: must not also count as SYNC */ for (auto &t : fx.tx) if (t.id == 0x280u + nodeId) fail("one-service/rpdo-and-sync", "a frame consumed as RPDO also triggered the synchronous TPDO"); } else if (!fx.tx.empty()) fail("rpdo/tx", "transmission on RPDO reception"); }
             else { if (w.raw(0, 0x2100, 1) != before) fail("gating/rpdo-outside-op", "RPDO changed its object in mode " + std::to_string(m)); expectUnclaimed(fx, "RPDO frame"); }
         }
+        else if (k == "p_readerr") {   // F6: the CAN driver reports a read error (or nothing) although a frame was announced: nothing was received, so nothing may happen
+            if (m == M_INVALID) return; int kind = (int)o.arg(0) % 4; Frame f = kind == 0 ? Frame(0, 2, {(uint8_t)(m == M_OP ? 2 : 1), nodeId}) : kind == 1 ? Frame(0x600u + nodeId, 8, {0x40, 0x00, 0x10, 0, 0, 0, 0, 0}) : kind == 2 ? Frame(0x123, 8, {1, 2, 3, 4, 5, 6, 7, 8}) : Frame(0, 2, {130, 0});
+            if (o.arg(1)) S().readErr = 1; else S().readEmpty = 1; size_t mk = w.mark(); w.rx(0, f); w.canproc(0); Fx fx = collect(mk); S().rx.clear(); S().readErr = 0; S().readEmpty = 0;
+            cov.hit(o.arg(1) ? "F6-can-read-error" : "F6-can-read-nothing"); nontrivial = true;
+            for (auto &e : fx.evs) if (e.kind == EV_TX || e.kind == EV_TXFAIL || e.kind == EV_CANRECEIVE || e.kind == EV_MODECHANGE || e.kind == EV_RESETREQ || e.kind == EV_PDORECEIVE) { fail("read-error/frame-handled", "the CAN driver delivered no frame, yet the node reacted (event kind " + std::to_string((int)e.kind) + ")"); return; }
+        }
         else if (k == "p_srpdo") {
             if (variant != 0) return; uint8_t val = (uint8_t)o.arg(0); uint32_t before = w.raw(0, 0x2100, 4); Fx fx = deliver(Frame(0x300u + nodeId, 1, {val}));
             if (w.raw(0, 0x2100, 4) != before) { fail(m == M_OP ? "rpdo/sync-applied-on-reception" : "gating/rpdo-outside-op", "a synchronous RPDO changed its object on reception in mode " + std::to_string(m)); return; }
@@ -167,7 +173,7 @@ Plan gen_nmt(Rng &r, bool thorough) {
         else if (c == 6) p.ops.push_back(Op("setmode", {r.range(2, 4)}));
         else if (c == 7) p.ops.push_back(r.chance(1, 2) ? Op("reset", {(int64_t)r.below(2)}) : Op("start"));
         else if (c == 8) { if (r.chance(1, 3)) { p.ops.push_back(Op("stop")); if (r.chance(2, 3)) { p.ops.push_back(Op("p_foreign", {0x123}, {1, 2, 3})); p.ops.push_back(Op("reinit")); p.ops.push_back(Op("start")); } } else p.ops.push_back(Op("p_lss", {(int64_t)r.below(2)})); }
-        else if (c == 9) p.ops.push_back(Op("p_sdo"));
+        else if (c == 9) p.ops.push_back(r.chance(1, 4) ? Op("p_readerr", {(int64_t)r.below(4), (int64_t)r.below(2)}) : Op("p_sdo"));
         else if (c == 10) p.ops.push_back(Op(r.chance(1, 3) ? "p_srpdo" : "p_rpdo", {(int64_t)r.range(1, 255)}));
         else if (c == 11) p.ops.push_back(Op("p_sync"));
         else if (c == 12) p.ops.push_back(Op("p_hb", {r.pick<int64_t>({0, 4, 5, 127, 5, 5})}));
